@@ -25,6 +25,7 @@ func init() {
 	work.Register("C09", "c09.faults", c09Faults)
 	work.Register("C09", "c09.multi", c09Multi)
 	work.Register("C09", "c09.strings", c09Strings)
+	work.Register("C09", "c09.retain", c09Retain)
 }
 
 var errInjected = errors.New("injected reader failure")
@@ -764,4 +765,153 @@ func c09Strings(c *work.Ctx) {
 		}
 	}
 	gen(nil, maxLen)
+}
+
+// ---- values of one stream stay what they were -------------------------------------------------
+
+// c09Retain: streams of 2..3 documents into typed destinations whose decoded values may share
+// memory with the stream's buffer (strings, Number, RawMessage, []byte, map keys). Every value is
+// kept and rendered twice: right after its Decode and after the whole stream has been consumed.
+// Both must equal Unmarshal of that document alone, for the whole-input reader, every single cut,
+// every way of cutting exactly at document ends (one document per Read, with the separator on
+// either side of the cut), and fixed pieces of 1..8 bytes.
+func c09Retain(c *work.Ctx) {
+	type dk struct {
+		name string
+		t    reflect.Type
+		docs []string
+	}
+	kinds := []dk{
+		{"[]string", reflect.TypeOf([]string(nil)), []string{`["ab","cd"]`, `["x"]`, `["a longer string é","y"]`, `[]`}},
+		{"struct{A int;B string}", reflect.TypeOf(struct {
+			A int    `json:"a"`
+			B string `json:"b"`
+		}{}), []string{`{"a":1,"b":"first"}`, `{"a":2,"b":"second, longer"}`, `{"b":"x"}`, `{"a":3}`}},
+		{"map[string]string", reflect.TypeOf(map[string]string(nil)), []string{`{"k":"v1"}`, `{"key2":"value2","k":"w"}`, `{}`}},
+		{"string", reflect.TypeOf(""), []string{`"abc"`, `"defgh-ijkl"`, `"\n"`, `""`}},
+		{"Number", reflect.TypeOf(stdjson.Number("")), []string{`12`, `-3.25e2`, `1234567890123`}},
+		{"RawMessage", reflect.TypeOf(stdjson.RawMessage(nil)), []string{`{"a":[1,2]}`, `"raw"`, `[true]`}},
+		{"[]byte", reflect.TypeOf([]byte(nil)), []string{`"QUJD"`, `"REVGR0g="`, `""`}},
+		{"struct{N Number;S string ,string}", reflect.TypeOf(struct {
+			N stdjson.Number `json:"n"`
+			S string         `json:"s,string"`
+		}{}), []string{`{"n":1,"s":"\"one\""}`, `{"n":22.5,"s":"\"twenty-two\""}`, `{"s":"\"x\""}`}},
+	}
+	seps := []string{"", " ", "\n"}
+	selfDelim := func(s string) bool { c := s[len(s)-1]; return c == ']' || c == '}' || c == '"' }
+	for _, k := range kinds {
+		var streams [][]string
+		var build func(cur []string)
+		build = func(cur []string) {
+			if len(cur) >= 2 {
+				streams = append(streams, append([]string(nil), cur...))
+			}
+			if len(cur) == 3 {
+				return
+			}
+			for _, d := range k.docs {
+				build(append(cur, d))
+			}
+		}
+		build(nil)
+		for _, st := range streams {
+			for _, sep := range seps {
+				ok := true
+				for i := 0; i+1 < len(st); i++ {
+					if sep == "" && !selfDelim(st[i]) {
+						ok = false
+					}
+				}
+				if !ok {
+					continue
+				}
+				text := strings.Join(st, sep) + sep
+				b := []byte(text)
+				if !c.BeginS("retain " + k.name + " <- " + text) {
+					continue
+				}
+				var want []string
+				for _, d := range st {
+					dst := reflect.New(k.t)
+					if err := json.Unmarshal([]byte(d), dst.Interface()); err != nil {
+						want = append(want, "x")
+					} else {
+						want = append(want, oracle.Canon(dst.Elem()))
+					}
+				}
+				check := func(r io.Reader, what string) {
+					var vals []reflect.Value
+					var first []string
+					verdict := ""
+					p, msg := util.Safe(func() {
+						d := json.NewDecoder(r)
+						for i := 0; i < len(st)+1; i++ {
+							dst := reflect.New(k.t)
+							err := d.Decode(dst.Interface())
+							if err != nil {
+								if err == io.EOF {
+									verdict += "E"
+								} else {
+									verdict += "x"
+								}
+								break
+							}
+							verdict += "v"
+							vals = append(vals, dst.Elem())
+							first = append(first, oracle.Canon(dst.Elem()))
+						}
+					})
+					c.Count("retained_streams", 1)
+					c.Outcome(verdict)
+					if p {
+						c.Violation(fmt.Sprintf("retained values : %s : panic", k.name), text, what+": "+msg)
+						return
+					}
+					if verdict != strings.Repeat("v", len(st))+"E" {
+						c.Violation(fmt.Sprintf("retained values : %s : verdicts %s for %d documents (sep %q)", k.name, verdict, len(st), sep), text, what)
+						return
+					}
+					for i := range vals {
+						if first[i] != want[i] {
+							c.Violation(fmt.Sprintf("retained values : %s : document %d of %d differs from Unmarshal of it alone (sep %q)", k.name, i+1, len(st), sep), text,
+								fmt.Sprintf("%s: Decoder gives %s ; Unmarshal gives %s", what, clip([]byte(first[i])), clip([]byte(want[i]))))
+							return
+						}
+						if now := oracle.Canon(vals[i]); now != first[i] {
+							c.Violation(fmt.Sprintf("retained values : %s : a value decoded earlier from the stream changed during a later Decode", k.name), text,
+								fmt.Sprintf("%s: document %d was %s right after its Decode and is %s after the stream was consumed", what, i+1, clip([]byte(first[i])), clip([]byte(now))))
+							return
+						}
+					}
+				}
+				check(bytes.NewReader(b), "whole input")
+				for x := 1; x < len(b); x++ {
+					check(&chunkReader{data: b, cuts: []int{x}, zeroAt: -1, failAt: -1}, fmt.Sprintf("cut at %d", x))
+				}
+				// one document per Read: cuts at document ends, the separator before or after the cut
+				var endsBefore, endsAfter []int
+				off := 0
+				for i, d := range st {
+					off += len(d)
+					if i < len(st)-1 || sep != "" {
+						endsBefore = append(endsBefore, off)
+						endsAfter = append(endsAfter, off+len(sep))
+					}
+					off += len(sep)
+				}
+				for _, cuts := range [][]int{endsBefore, endsAfter} {
+					for _, eofWith := range []bool{false, true} {
+						check(&chunkReader{data: b, cuts: cuts, eofWith: eofWith, zeroAt: -1, failAt: -1}, fmt.Sprintf("one document per Read (cuts %v, EOF with the last piece: %v)", cuts, eofWith))
+					}
+				}
+				for ps := 1; ps <= 8; ps++ {
+					check(&chunkReader{data: b, pieceSize: ps, zeroAt: -1, failAt: -1}, fmt.Sprintf("piece size %d", ps))
+				}
+				if c.WantSample() {
+					c.Sample("retained " + k.name + " <- " + text)
+				}
+				c.EndCase()
+			}
+		}
+	}
 }
